@@ -96,6 +96,9 @@ func (v *VerifSession) Close() {
 	v.s.stateTimer.Stop()
 	v.s.peerTimer.Stop()
 	_ = UnregisterSession(v.s.sessionID)
+	// The session stays reachable from its pending timeout closures for a while: let go of the connection's channels and the dictionaries.
+	v.s.messageOut, v.s.messageIn = nil, nil
+	v.s.appDataDictionary, v.s.transportDataDictionary, v.s.Validator = nil, nil, nil
 	stop := v.stop
 	// Pending time.AfterFunc senders must still find a reader.
 	time.AfterFunc(15*time.Second, func() { close(stop) })
